@@ -552,6 +552,13 @@ def check_saved_state(ctx):
                 t = g.ifs[0]
                 if isinstance(t, ast.Compare) and len(t.ops) == 1 and isinstance(t.ops[0], ast.NotIn) and U(t.left) == k:
                     seq = expand(t.comparators[0], gdefs)
+                    if isinstance(seq, ast.Attribute) and U(seq.value) in ('self', 'GraphicalModel', 'type(self)', 'self.__class__'):
+                        # a class-level constant
+                        cls_node = gs.cls
+                        cdefs = [n_.value for n_ in (cls_node.body if cls_node is not None else []) if isinstance(n_, ast.Assign)
+                                 and len(n_.targets) == 1 and U(n_.targets[0]) == seq.attr]
+                        if len(cdefs) == 1:
+                            seq = cdefs[0]
                     if isinstance(seq, (ast.Tuple, ast.List, ast.Set)) and all(isinstance(e, ast.Constant) and isinstance(e.value, str) for e in seq.elts):
                         dropped = [e.value for e in seq.elts]
                 elif isinstance(t, ast.Compare) and len(t.ops) == 1 and isinstance(t.ops[0], ast.NotEq) and U(t.left) == k \
@@ -612,8 +619,7 @@ def check_saved_state(ctx):
         ctx.ob('saved-state', ss, updates[0], True, 'nothing the constructor derives is left out of the pickle')
         return
     call = rebuilds[0]
-    if call.lineno > updates[0].lineno:
-        raise AnalysisError('GraphicalModel.__setstate__: rebuild after restoring the saved attributes: not a recognised form')
+    after = call.lineno > updates[0].lineno
     args = list(call.args)
     if U(call.func) == 'GraphicalModel.__init__':
         args = args[1:]
@@ -624,9 +630,35 @@ def check_saved_state(ctx):
         if kw.arg is None:
             raise AnalysisError('GraphicalModel.__setstate__: rebuild with **kwargs')
         bound[kw.arg] = kw.value
-    for a in lost:
+    # a rebuild AFTER the saved attributes were restored runs the whole constructor again: it overwrites EVERY attribute the constructor
+    # sets, so each of them - not only the ones left out - must be given the saved value of what it is derived from
+    todo = sorted(set_by_init) if after else lost
+    if after:
+        # definite findings first (a parameter that is not passed at all), the forms that need recognising afterwards
+        todo = sorted(todo, key=lambda a_: (all(p_ in bound for p_ in deps.get('self.' + a_, set())), a_))
+    same_order = 'elimination_order' in bound and U(bound['elimination_order']).replace(' ', '') == 'self.elimination_order' \
+        and 'elimination_order' not in dropped
+    for a in todo:
         need = sorted(deps.get('self.' + a, set()))
         for p_ in need:
+            if after and p_ == 'cliques' and p_ in bound and U(bound[p_]).replace(' ', '') == 'self.cliques' and same_order and 'cliques' not in dropped:
+                # trusted lemma: the maximal cliques of a triangulation, eliminated in the same order, need no further fill-in - the junction
+                # tree built from them is the tree they came from
+                ctx.ob('saved-state', ss, call, True, '`%s` is rebuilt from the restored maximal cliques and the same elimination order '
+                       '(no further fill-in: the same tree)' % a, construct='rebuild of %s from %s' % (a, p_))
+                continue
+            if after and p_ == 'elimination_order' and same_order:
+                ctx.ob('saved-state', ss, call, True, '`%s` is rebuilt with the elimination order that was actually used (a given order is used as it is)' % a,
+                       construct='rebuild of %s from %s' % (a, p_))
+                continue
+            if after and p_ in bound and U(bound[p_]).replace(' ', '') == 'self.' + p_ and deps.get('self.' + p_) == {p_} and p_ not in dropped:
+                ctx.ob('saved-state', ss, call, True, '`%s` is rebuilt from the restored `self.%s`' % (a, p_), construct='rebuild of %s from %s' % (a, p_))
+                continue
+            if after and p_ not in bound:
+                ctx.ob('saved-state', ss, call, False,
+                       'the constructor is run again after the saved attributes were restored and sets `%s` from its parameter `%s`; the call does not '
+                       'pass `%s`, so the restored value is overwritten by the default' % (a, p_, p_), construct='rebuild of %s from %s' % (a, p_))
+                continue
             if p_ not in bound:
                 ctx.ob('saved-state', ss, call, False,
                        'the attribute `%s` is left out of the pickle and rebuilt by the constructor, which derives it from `%s`; the rebuild does not '
